@@ -230,6 +230,9 @@ n('C04', 'restrict_weights: /2. as *0.5', CORE,
   "d[i] = (h[2*i-2]+h[2*i-1])/2.", "d[i] = 0.5*(h[2*i-1]+h[2*i-2])")
 
 # ------------------------------------------------------------------- C01
+m('C01', '_terminate: convergence only declared after the first cycle (control conditions)', SOLVER,
+  "    if l2_last < var.tol*var.l2_refe:\n        var.exit_message = \"CONVERGED\"\n        finished = True",
+  "    if l2_last < var.tol*var.l2_refe:\n        var.exit_message = \"CONVERGED\"\n        if it > 0:\n            finished = True", 'C01.CTL')
 m('C01', '_terminate: guard without reference norm', SOLVER,
   "    if l2_last < var.tol*var.l2_refe:", "    if l2_last < var.tol:", 'C01.R1')
 m('C01', 'solve: already-converged test against l2_refe only', SOLVER,
@@ -351,6 +354,8 @@ n('C12', 'clean: list order', SIMS,
   "            for name in ['_misfit', '_gradient']:")
 
 # ------------------------------------------------------------------- C13
+m('C13', 'Survey.select: receivers only selected with sources (control conditions)', SURV,
+  "            selection['rec'] = receivers", "            if sources is not None:\n                selection['rec'] = receivers", 'C13.CTL')
 m('C13', 'Simulation.to_dict plain: keep-list without the standard deviation', SIMS,
   "            for key in ['synthetic', 'residual', 'weights']:\n                if key in out['survey']['data'].keys():\n                    del out['survey']['data'][key]",
   "            keep = ['observed', '_noise_floor', '_relative_error']\n            out['survey']['data'] = {\n                k: v for k, v in out['survey']['data'].items() if k in keep}", 'C13.N4.copy')
@@ -397,6 +402,8 @@ n('C13', 'add_noise: in-place on a fresh local copy', SURV,
   "min_amplitude = np.array(min_amplitude, dtype=float).copy()\n                min_amplitude /= 2.0")
 
 # ------------------------------------------------------------------- C11
+m('C11', '_mp.solve: start field handed on only in memory (control conditions)', MP,
+  "    solver_input['efield'] = inp['efield']\n", "    if not fname:\n        solver_input['efield'] = inp['efield']\n    else:\n        solver_input['efield'] = None\n", 'C11.CTL')
 m('C11', '_compute: field only stored into an empty slot', SIMS,
   "            self._dict_efield[src][freq] = out[i][0]\n            self._dict_efield_info[src][freq] = out[i][1]",
   "            if self._dict_efield[src][freq] is None:\n                self._dict_efield[src][freq] = out[i][0]\n            self._dict_efield_info[src][freq] = out[i][1]",
@@ -476,6 +483,8 @@ n('C05', '_max_level: guard operands swapped', SOLVER,
   "            while n % 2 == 0 and n > 2:", "            while n > 2 and n % 2 == 0:")
 
 # ------------------------------------------------------------------- C17
+m('C17', '_dict_serialize: nested dicts only serialised when non-trivial (control conditions)', IO,
+  "            value = _dict_serialize(value)", "            if len(value) > 1:\n                value = _dict_serialize(value)", None)
 m('C17', 'Simulation.to_dict plain: survey reduced to the observed data', SIMS,
   "            for key in ['synthetic', 'residual', 'weights']:\n                if key in out['survey']['data'].keys():\n                    del out['survey']['data'][key]",
   "            out['survey']['data'] = {'observed': out['survey']['data']['observed']}",
